@@ -575,3 +575,98 @@ Example ex_misread_cr : csv_read default_grammar ([97;13;98] ++ [LF]) = Some [[[
 Proof. vm_compute. reflexivity. Qed.
 Example ex_misread_lf : csv_read default_grammar ([97;10;98] ++ [LF]) = Some [[[97]];[[98]]].
 Proof. vm_compute. reflexivity. Qed.
+
+(* ---------------------------------------------------------------- the reader only returns representable rows *)
+Lemma representable_len2 : forall r : list (list Z), (2 <= length r)%nat -> representable r = true.
+Proof.
+  intros [|a [|b r]] H; cbn [length] in H; try lia. destruct a; reflexivity.
+Qed.
+
+Lemma emit_repr : forall cur acc, is_nil acc && is_nil cur = false ->
+  representable (rev (rev cur :: acc)) = true.
+Proof.
+  intros cur acc H. destruct acc as [|x acc].
+  - destruct cur as [|c cur]; [discriminate|].
+    change (rev [rev (c :: cur)]) with [rev (c :: cur)].
+    destruct (rev (c :: cur)) as [|y l] eqn:E; [|reflexivity].
+    apply (f_equal (@length Z)) in E. rewrite rev_length in E. discriminate.
+  - apply representable_len2. rewrite rev_length. cbn [length]. lia.
+Qed.
+
+Lemma finish_repr : forall cur acc k rows, finish cur acc k = Some rows ->
+  exists rows', k = Some rows' /\ (forallb representable rows' = true -> forallb representable rows = true).
+Proof.
+  intros cur acc k rows H. unfold finish in H. destruct (is_nil acc && is_nil cur) eqn:E.
+  - exists rows. split; [exact H | tauto].
+  - destruct k as [r|]; [|discriminate]. injection H as H. subst rows.
+    exists r. split; [reflexivity|]. intro Hr.
+    change (representable (rev (rev cur :: acc)) && forallb representable r = true).
+    rewrite Hr, (emit_repr cur acc E). reflexivity.
+Qed.
+
+Lemma rd_nil_repr : forall g inq cur acc rows, rd g inq cur acc [] = Some rows ->
+  forallb representable rows = true.
+Proof.
+  intros g inq cur acc rows H. cbn [rd] in H. destruct inq; [discriminate|].
+  destruct (is_nil acc && is_nil cur) eqn:E; injection H as H; subst rows; [reflexivity|].
+  change (representable (rev (rev cur :: acc)) && true = true).
+  rewrite (emit_repr cur acc E). reflexivity.
+Qed.
+
+Lemma rd_repr_n : forall g n inp, (length inp <= n)%nat -> forall inq cur acc rows,
+  rd g inq cur acc inp = Some rows -> forallb representable rows = true.
+Proof.
+  intros g. induction n as [|n IH]; intros inp Hn inq cur acc rows H.
+  - destruct inp; [|cbn [length] in Hn; lia]. apply rd_nil_repr in H. exact H.
+  - destruct inp as [|ch rest]; [apply rd_nil_repr in H; exact H|].
+    cbn [length] in Hn.
+    destruct inq; [rewrite rd_q_eq in H | rewrite rd_nq_eq in H].
+    + destruct (is_opt (quote g) ch).
+      * destruct rest as [|c2 rest2].
+        -- apply rd_nil_repr in H. exact H.
+        -- destruct (dbl g && (ch =? c2)); apply IH in H; cbn [length] in *; (exact H || lia).
+      * destruct (is_opt (esc g) ch).
+        -- destruct rest as [|c2 rest2]; [discriminate|]. apply IH in H; cbn [length] in *; (exact H || lia).
+        -- apply IH in H; (exact H || lia).
+    + destruct (memz ch (seps g)); [apply IH in H; (exact H || lia)|].
+      destruct (is_opt (quote g) ch); [apply IH in H; (exact H || lia)|].
+      destruct (is_rchar g ch).
+      { apply finish_repr in H. destruct H as (r' & H & Himp). apply Himp. apply IH in H; (exact H || lia). }
+      destruct ((ch =? CR) && crlf_or_lax g).
+      { destruct rest as [|c2 rest2].
+        - destruct (lax g).
+          + apply finish_repr in H. destruct H as (r' & H & Himp). apply Himp. apply rd_nil_repr in H. exact H.
+          + apply IH in H; (exact H || (cbn [length]; lia)).
+        - destruct (c2 =? LF).
+          + apply finish_repr in H. destruct H as (r' & H & Himp). apply Himp.
+            apply IH in H; cbn [length] in *; (exact H || lia).
+          + destruct (lax g).
+            * apply finish_repr in H. destruct H as (r' & H & Himp). apply Himp.
+              apply IH in H; (exact H || lia).
+            * apply IH in H; (exact H || lia). }
+      destruct ((ch =? LF) && lax g).
+      { apply finish_repr in H. destruct H as (r' & H & Himp). apply Himp. apply IH in H; (exact H || lia). }
+      apply IH in H; (exact H || lia).
+Qed.
+
+Theorem csv_read_rows_representable : forall g txt rows,
+  csv_read g txt = Some rows -> forallb representable rows = true.
+Proof. intros g txt rows H. unfold csv_read in H. apply (rd_repr_n g (length txt) txt (le_n _) _ _ _ _ H). Qed.
+
+Lemma filter_all : forall (A : Type) (p : A -> bool) (l : list A), forallb p l = true -> filter p l = l.
+Proof.
+  intros A p. induction l as [|x l IH]; intro H; [reflexivity|].
+  cbn [forallb] in H. apply andb_true_iff in H. destruct H as [Hx Hl].
+  cbn [filter]. rewrite Hx, (IH Hl). reflexivity.
+Qed.
+
+(* normalisation: writing what was read and reading it again is stable *)
+Theorem csv_read_write_read : forall g, wf g -> forall txt rows,
+  csv_read g txt = Some rows -> exists txt', csv_write g rows = Some txt' /\ csv_read g txt' = Some rows.
+Proof.
+  intros g W txt rows H. pose proof (csv_write_total g W rows) as Ht.
+  destruct (csv_write g rows) as [txt'|] eqn:E; [|contradiction].
+  exists txt'. split; [reflexivity|].
+  rewrite (csv_roundtrip g W rows txt' E).
+  rewrite (filter_all _ representable rows (csv_read_rows_representable g txt rows H)). reflexivity.
+Qed.
